@@ -261,6 +261,17 @@ def w_random(pid, tier, seed, job):
                 'FILE "t.bin" BINARY\n TRACK 01 AUDIO\n', 'FILE "t.bin" BINARY\n TRACK 99999999999999999999 AUDIO\n INDEX 01 99999999:99:99\n',
                 'FILE "t.bin" BINARY\n TRACK 01 MODE1/2352\n INDEX 01 00:00:00\n', "\n".join(lines[:2] + ["garbage"] * 50 + lines[2:]),
                 "\n".join(reversed(lines)), good * 200, 'FILE "t.bin" BINARY\n' + " TRACK 01 AUDIO\n INDEX 01 00:00:00\n" * 500]
+    # lines that make a backtracking regex work hard: unterminated quotes, long runs of one class, near-matches
+    hdr = 'FILE "t.bin" BINARY\n TRACK 01 AUDIO\n'
+    for body in ("a" * 60, "a b" * 40, "\\" * 50, 'a\\"' * 30, " " * 400, "x" * 5000):
+        variants.append(hdr + '  TITLE "' + body + "\n INDEX 01 00:00:00\n")            # no closing quote
+        variants.append(hdr + '  TITLE "' + body + '"\n INDEX 01 00:00:00\n')
+    variants.append('FILE "' + "n" * 80 + "\n TRACK 01 AUDIO\n INDEX 01 00:00:00\n")              # FILE without closing quote
+    variants.append('FILE "' + "n n" * 40 + '" BINAR\n TRACK 01 AUDIO\n')
+    variants.append(hdr + " INDEX " + "1" * 60 + " " + "2" * 60 + ":" + "3" * 60 + "\n")
+    variants.append(hdr + " INDEX 01 " + "00:" * 60 + "\n")
+    variants.append(" " * 3000 + "TRACK" + " " * 3000 + "\n")
+    variants.append(hdr.replace("AUDIO", "A/" * 200) + " INDEX 01 00:00:00\n")
     for k, v in enumerate(variants):
         for binlen in (0, 10, 2352 * 4):
             ctx.count("cue_fault", (job, k, binlen), nontrivial=k > 0)
